@@ -134,7 +134,7 @@ ModeInd(v, mode) == IF v >= 1 THEN (CASE mode = "numeric" -> 1 [] mode = "alphan
                     ELSE (CASE mode = "numeric" -> 0 [] mode = "alphanumeric" -> 1 [] mode = "byte" -> 2 [] mode = "kanji" -> 3)
 ModeOf(v, ind) == IF v >= 1 THEN (CASE ind = 1 -> "numeric" [] ind = 2 -> "alphanumeric" [] ind = 4 -> "byte" [] ind = 8 -> "kanji"
                                     [] ind = 13 -> "hanzi" [] ind = 7 -> "eci" [] ind = 3 -> "sa" [] ind = 0 -> "term" [] OTHER -> "bad")
-                  ELSE <<"numeric","alphanumeric","byte","kanji">>[ind+1]
+                  ELSE IF ind <= 3 THEN <<"numeric","alphanumeric","byte","kanji">>[ind+1] ELSE "bad"      \* M4 has 3 indicator bits: 4..7 are undefined
 ModeOK(v, mode) == IF v >= 1 THEN TRUE ELSE CASE mode = "numeric" -> TRUE [] mode = "alphanumeric" -> v >= -2 [] mode \in {"byte","kanji"} -> v >= -1 [] OTHER -> FALSE
 TermLen(v) == IF v >= 1 THEN 4 ELSE <<3,5,7,9>>[v+4]
 AlnumChars == <<48,49,50,51,52,53,54,55,56,57,65,66,67,68,69,70,71,72,73,74,75,76,77,78,79,80,81,82,83,84,85,86,87,88,89,90,32,36,37,42,43,45,46,47,58>>
